@@ -53,6 +53,9 @@ type P struct {
 }
 
 func New(cfg Config) *P {
+	if cfg.MaxConnsPerKey < 0 {
+		cfg.MaxConnsPerKey = 0
+	}
 	if cfg.New == nil {
 		cfg.New = func(context.Context, string) (Conn, error) {
 			return nil, nil
